@@ -125,8 +125,11 @@ def has_opaque(j) -> bool:
     return False
 
 
+NONVALS = ("undef", "nonnum", "inexact", None)
+
+
 def close(a, b) -> bool:
-    if isinstance(a, bool) or isinstance(b, bool) or a == "undef" or b == "undef":
+    if isinstance(a, bool) or isinstance(b, bool) or a in NONVALS or b in NONVALS:
         return False
     x, y = Fraction(a), Fraction(b)
     return abs(x - y) <= Fraction(1, 10**9) * max(1, abs(x), abs(y))
@@ -192,15 +195,14 @@ def judge_fn(ctx, job, res, resps):
                 # follow that, so these programs are judged by the oracle alone
                 ctx.hist["model_silent:truthiness"] = ctx.hist.get("model_silent:truthiness", 0) + 1
                 M = None
-            elif status == "raised:RecursionError" and M["status"] == "expr":
-                # sympy itself fails (e.g. Piecewise.eval recursing on  -3.0*x > 4.0*x  during subs): trusted base, the
-                # failure is visible; the model has no opinion
-                ctx.hist["model_silent:sympy_recursion"] = ctx.hist.get("model_silent:sympy_recursion", 0) + 1
-                M = None
-            elif status != "expr" and M["status"] == "expr" and has_opaque(resp["tr"]["ok"]):
-                # sqrt / log / ... of a constant outside the function's real domain: sympy returns a non-real number and
-                # Float() refuses; the model has no values for these functions
-                ctx.hist["model_silent:opaque_domain"] = ctx.hist.get("model_silent:opaque_domain", 0) + 1
+            elif status != "expr" and M["status"] == "expr":
+                # the real translator gives up where the model has an expression: sympy evaluates eagerly while the
+                # expression is built and can fail on the way (nan / zoo in a comparison after 0/0 in a folded piece,
+                # Piecewise.eval recursing during subs, sqrt of a negative constant, ...).  Refusing is always allowed by
+                # the property; the model has no opinion — unless it happens often (checked at the end of the run)
+                kind = ("sympy_recursion" if status == "raised:RecursionError" else
+                        "opaque_domain" if has_opaque(resp["tr"]["ok"]) else "real_refuses_more")
+                ctx.hist["model_silent:" + kind] = ctx.hist.get("model_silent:" + kind, 0) + 1
                 M = None
             elif status == "expr" and M["status"] == "noexpr":
                 # sympy's constant folding can erase a sub-expression that would have been refused (a piece after a
@@ -225,6 +227,20 @@ def judge_fn(ctx, job, res, resps):
             # inside the domain of C06_sound_partial nothing is excused
             finding = None
         verdict = ctx.judge(case, R, S, M, finding=finding, what=what)
+        if verdict == "violation" and not job.get("shrunk") and ctx.extra_cov.get("shrunk", 0) < 3:
+            ctx.extra_cov["shrunk"] = ctx.extra_cov.get("shrunk", 0) + 1
+            try:
+                sh = shrink_case(ctx, job, res, ob)
+            except Exception as e:  # noqa: BLE001
+                ctx.notes.append(f"shrinking failed: {e!r}")
+                sh = None
+            if sh is not None and len(sh[1]["src"]) < len(res["src"]):
+                j2, r2, rs2 = sh
+                j2["shrunk"] = True
+                before = len(ctx.violations)
+                judge_fn(ctx, j2, r2, rs2)
+                if len(ctx.violations) > before:
+                    ctx.violations.pop(before - 1)  # keep the shrunk one instead of the original
         if resp is None or M is None:
             continue
         # structural correspondence (model drift if the real result is right but the model's shape differs)
@@ -247,6 +263,96 @@ def judge_fn(ctx, job, res, resps):
                 ctx.hist["pysem:compared"] = ctx.hist.get("pysem:compared", 0) + 1
                 if a != b and not close(a, b):
                     ctx.add_drift(dict(case, point=res["points"][i]), {"cpython": b}, {"lean_callFn": a}, what + " python-semantics")
+
+
+def _stmt_paths(fn_node):
+    """every statement of the function body, innermost last, as (container list, index)"""
+    import ast
+
+    out = []
+
+    def walk(lst):
+        for i, st in enumerate(lst):
+            out.append((lst, i))
+            for fld in ("body", "orelse"):
+                sub = getattr(st, fld, None)
+                if isinstance(sub, list) and sub and isinstance(sub[0], ast.stmt):
+                    walk(sub)
+
+    walk(fn_node.body)
+    return out
+
+
+def shrink_case(ctx, job, res, ob):
+    """delta debugging over statements: delete a statement (with its block), or replace an if by its body, as long as
+    the real translator still disagrees with CPython on the recorded points.  Returns (job, res, resps) of the smallest
+    function found, re-evaluated by all three sides."""
+    import ast
+    import copy
+
+    fname, ren = res["fn"], ob["rename"]
+    src = res["min_src"]
+    wd = workdir(ctx)
+
+    def evaluate(source):
+        j = {"workdir": str(wd / "shrink"), "mod": job["mod"], "helper": job["helper"],
+             "sources": {job["helper"]: job["sources"][job["helper"]], job["mod"]: source},
+             "fns": [fname], "seed": 0, "npoints": 12, "known_keys": ctx.known_keys,
+             "points": {fname: res["points"]}, "renamings": {fname: [ren]}}
+        try:
+            (r,) = L.evaluate_module(j)
+        except Exception:  # noqa: BLE001  (the candidate does not compile / import)
+            return None
+        if "error" in r:
+            return None
+        return j, r
+
+    def disagrees(r):
+        o = r["obs"][0]
+        if o["status"] != "expr":
+            return False
+        for a, b in zip(o["vals"], r["py"]):
+            if b in NONVALS:
+                continue
+            if a != b and not close(a, b):
+                return True
+        return False
+
+    best = evaluate(src)
+    if best is None or not disagrees(best[1]):
+        return None
+    progress = True
+    budget = 60
+    while progress and budget > 0:
+        progress = False
+        tree = ast.parse(best[0]["sources"][job["mod"]])
+        fn_node = next(n for n in tree.body if isinstance(n, ast.FunctionDef) and n.name == fname)
+        for k in range(len(_stmt_paths(fn_node))):
+            for mode in ("delete", "unwrap"):
+                t2 = copy.deepcopy(tree)
+                f2 = next(n for n in t2.body if isinstance(n, ast.FunctionDef) and n.name == fname)
+                lst, i = _stmt_paths(f2)[k]
+                if mode == "delete":
+                    if len(lst) == 1:
+                        continue
+                    del lst[i]
+                else:
+                    if not isinstance(lst[i], ast.If):
+                        continue
+                    lst[i:i + 1] = lst[i].body
+                budget -= 1
+                cand = evaluate(ast.unparse(t2) + "\n")
+                if cand is not None and disagrees(cand[1]):
+                    best = cand
+                    progress = True
+                    break
+                if budget <= 0:
+                    break
+            if progress or budget <= 0:
+                break
+    j, r = best
+    resps = driver.call_batch(requests_for(r)) if ctx.driver_ok else None
+    return j, r, resps
 
 
 def run_jobs(ctx, jobs):
@@ -282,7 +388,7 @@ def run(ctx):
     setup(ctx)
     wd = workdir(ctx)
     try:
-        n = ctx.n(1600, 40000)
+        n = ctx.n(1600, 60000)
         if not ctx.proof_ok:
             n = max(n, 6000)
         done = 0
@@ -302,6 +408,10 @@ def run(ctx):
         if silent > 0.01 * max(1, ctx.hist.get("status:expr", 0)):
             ctx.add_drift({"model_silent:refuses_more": silent}, "expr", "noexpr",
                           "the model refuses functions the real translator accepts too often to be constant-folding erasure")
+        silent2 = sum(ctx.hist.get("model_silent:" + k, 0) for k in ("real_refuses_more", "sympy_recursion", "opaque_domain"))
+        if silent2 > 0.01 * max(1, ctx.evaluations):
+            ctx.add_drift({"model_silent:real_refuses_more": silent2}, "noexpr", "expr",
+                          "the real translator refuses functions the model translates too often to be sympy evaluation errors")
         if not ctx.proof_ok or ctx.drift:
             ctx.notes.append("proof/correspondence broken: the run above is the failing-input search")
     finally:
